@@ -44,7 +44,7 @@ def run(chk, tier):
                 inst[iid] = (e, k)
             elif c == 3 and step % 2 == 0:
                 # an instance obtained by conversion / clone routes (Enc -> combined / Dec, by value or by reference)
-                fam = r.choice(["Aes128", "Aes192", "Aes256", "Kuznyechik"])
+                fam = r.choice(["Aes128", "Aes192", "Aes256", "Kuznyechik", "Armv8Aes128", "Armv8Aes256", "NeonKuznyechik"])
                 route = r.choice(ROUTES)
                 tname = fam if route.startswith("c.") else fam + ("Enc" if route.startswith("e.") else "Dec")
                 e = next(x for x in reg if x["name"] == tname)
